@@ -20,7 +20,7 @@ import re
 
 import core
 
-PROOF_MODULES = ["UnytProofs.C06"]
+PROOF_MODULES = ["UnytProofs.C06", "UnytProofs.C06Alias"]
 HARNESS = os.path.dirname(os.path.abspath(__file__))
 
 UNIT_SETS = [("m", "s", "kg"), ("dimensionless", "dimensionless", "dimensionless"), ("cm", "cm", "cm")]
@@ -43,9 +43,11 @@ def diff_pass(job):
     dseed, units = job
     _setup()
     import npcatalog as C
+    import c06_alias as A
     import c06_diff as D
     import unyt._array_functions as AF
 
+    A.register()
     handled = {C.name_of(f) for f in AF._HANDLED_FUNCTIONS}
     stats = {}
     fails = {}
@@ -75,7 +77,13 @@ def diff_pass(job):
                         else:
                             whats = ["numpy-raises"]
                         detail = "NumPy raises on the bare data (" + d[:200] + ") but the call on quantities returns"
+                    ak = A.kind_of(t)
+                    if ak:
+                        stats[f"{ak}:{st}"] = stats.get(f"{ak}:{st}", 0) + 1
                     for w in whats:
+                        if ak == "mixed" and w == "values":
+                            # operands in DIFFERENT units: the units-guarded constant return answers
+                            w = "values@mixed-units"
                         if w == "int-out-retyped" and fid not in handled:
                             key = "ufunc-out|int-out-retyped"
                         else:
@@ -126,9 +134,11 @@ def record_defects(r, fwd=None, seen=None):
 def forwarding_pass(dseed):
     _setup()
     import npcatalog as C
+    import c06_alias as A
     import c06_trace as TR
     import unyt._array_functions as AF
 
+    A.register()
     handled = {C.name_of(f) for f in AF._HANDLED_FUNCTIONS}
     recs = []
     entered_ok = {}
@@ -153,6 +163,8 @@ def forwarding_pass(dseed):
                         continue
                     entered_ok[fid] = True
                     r["case"] = (t.tid, dk, sc, om)
+                    if A.kind_of(t):
+                        r["alias"] = (A.kind_of(t), A.slots_of(t.instantiate(dk, sc, dseed)))
                     recs.append(r)
     return dict(recs=recs, entered=sorted(entered_ok), other=seen_other)
 
@@ -220,7 +232,7 @@ def fwd_replay(tid, dk, sc, seed, om, defect):
         "import sys, warnings\nwarnings.simplefilter('ignore')\n"
         f"sys.path.insert(0, {HARNESS!r})\n"
         "import numpy as np\nnp.seterr(all='ignore')\n"
-        "import npcatalog as C, c06_trace as TR, c06 as H\n"
+        "import npcatalog as C, c06_trace as TR, c06 as H, c06_alias as A\nA.register()\n"
         f"t = [t for t in C.templates() if t.tid == {tid!r}][0]\n"
         f"r = TR.trace_case(t, {dk!r}, {sc!r}, {seed!r}, {om!r})\n"
         "import unyt._array_functions as AF\n"
@@ -250,9 +262,11 @@ def parse_render(s):
 def run(tier, seed):
     _setup()
     import npcatalog as C
+    import c06_alias as A
     import c06_diff as D
     import unyt._array_functions as AF
 
+    A.register()
     chk = core.Check("C06", tier, seed)
     chk.proof = core.prove("C06", PROOF_MODULES, extra_targets=("drv_c06",), tier=tier)
     rng = chk.rng
@@ -344,6 +358,7 @@ def run(tier, seed):
     nfs = 1 if tier == "quick" else 3
     fseeds = [1000 + seed * 17 + i for i in range(nfs)]
     lines, expect = [], []
+    alines, aexpect = [], []
     observed_entered = set()
     other = {}
     for fs in fseeds:
@@ -354,11 +369,19 @@ def run(tier, seed):
             tid, dk, sc, om = r["case"]
             chk.count("forwarding-cases")
             st_ = statics_by_func.get(r["func"])
+            al = r.get("alias")
+            if al is not None:
+                chk.count("forwarding-cases:" + al[0])
+                if r["calls"] or not r["outcome"].startswith("raise"):
+                    alines.append("\t".join(["c06.alias", r["func"], "1" if al[0] == "mixed" else "0"] + [f"{p}={i}" for p, i in al[1]]))
+                    aexpect.append(r)
+            if al is not None and al[0] == "mixed" and not r["calls"]:
+                continue  # operands in different units: a units-guarded exit may answer (compared with the model below)
             for d in record_defects(r, st_["fwd"] if st_ else None, st_["by_value_seen"] if st_ else None):
                 key = f"{r['func']}|{d}"
                 chk.fail(key, f"{tid} [{dk},{sc},out={om}]: kernel calls {r['calls']} parameters {r['params']} post {r['post']}",
                          {"python": fwd_replay(tid, dk, sc, fs, om, d), "defect": d})
-            if r["calls"] or not r["outcome"].startswith("raise"):
+            if al is None and (r["calls"] or not r["outcome"].startswith("raise")):
                 lines.append("\t".join(["c06.run", r["func"], r["variant"], r["sig"]] + [f"{k}={q}" for k, q in r["caller"]]))
                 expect.append(r)
     # dispatcher as observed: handled functions enter their handler; others never do
@@ -402,6 +425,54 @@ def run(tier, seed):
                 ok = False
             if not ok:
                 chk.disagree("c06.run", f"{tid} [{r['case'][1:]}]: model {via} {rendered} post={post}; observed {r['calls'][0]} {r['render']} post={r['post']}")
+
+    # aliased / mixed-unit call forms: `Np.runGuarded` with the regenerated exits vs what the handler did
+    if model is not None and alines:
+        try:
+            areps = model.ask(alines)
+        except Exception as e:  # noqa: BLE001
+            areps = []
+            chk.disagree("driver", repr(e))
+        for rp, r in zip(areps, aexpect):
+            chk.count("model:c06.alias")
+            pred = rp[1] if len(rp) > 1 else "?"
+            obs = "call" if r["calls"] else "nokernel"
+            if rp[0] != "ok" or pred != obs:
+                chk.disagree("c06.alias", f"{r['case'][0]} [{r['case'][1:]}] slots {r['alias'][1]}: model (runGuarded with the regenerated exits) {rp}; "
+                                          f"the handler made the kernel calls {r['calls']} (outcome {r['outcome']})")
+            elif obs == "call" and (r["calls"][0][1] != r["func"]):
+                chk.disagree("c06.alias", f"{r['case'][0]}: model predicts the kernel of {r['func']}; observed {r['calls']}")
+
+    # ------------------------------------------------------------ pre-kernel decision logic (ast) as direct observation
+    try:
+        XA = json.load(open(os.path.join(core.BUILD, "extract_c06_alias.json"), encoding="utf-8"))
+    except Exception as e:  # noqa: BLE001
+        XA = None
+        chk.disagree("translator", f"build/extract_c06_alias.json unreadable: {e!r}")
+    if XA:
+        chk.extra["alias_rows"] = len(XA["rows"])
+        if model is not None:
+            try:
+                er = model.ask([f"c06.exits\t{f}" for f in XA["exits"]])
+            except Exception as e:  # noqa: BLE001
+                er = []
+                chk.disagree("driver", repr(e))
+            for (f, es), rp in zip(XA["exits"].items(), er):
+                want = ";".join(f"{e['kind']}:{'true' if e['raises'] else 'false'}:{e['src'][:120]}" for e in es)
+                got = rp[1] if len(rp) > 1 else ""
+                chk.case(("exits", f))
+                if rp[0] != "ok" or got != want:
+                    chk.disagree("c06.exits", f"{f}: model table {rp} translator {want!r}")
+        for f, es in XA["exits"].items():
+            for e in es:
+                chk.count("exit:" + e["kind"])
+                if e["kind"] == "identity":
+                    chk.fail(f"{f}|identity-test", f"the handler of {f} (or a helper it calls) decides on operand identity / memory overlap: `{e['src']}`"
+                             " — f(x, x) need not compute what f(x, x.copy()) computes",
+                             {"python": "import sys\n" f"sys.path.insert(0, {HARNESS!r})\n"
+                                        "import numpy as np, c06_alias as A, unyt._array_functions as AF\n"
+                                        f"es = A.static_exits(AF._HANDLED_FUNCTIONS[{_expr(f)}])\nprint(es)\n"
+                                        "assert not [e for e in es if e['kind'] == 'identity'], es\n"})
 
     # ------------------------------------------------------------ differential pass (O1)
     if tier == "quick":
